@@ -25,7 +25,12 @@ def run_one(s):
         else:
             X = tp.spaces.Rn("a", ch)
             Y = tp.spaces.Rn("b", ch)
-            net = tp.models.FNO(X, Y, fourier_layers=2, hidden_channels=3, fourier_modes=modes,
+            # N-D: "a list of N numbers" is only unambiguous when there are more layers than axes (a flat list of
+            # length <= fourier_layers is read as per-layer 1-D modes), otherwise the list-of-lists form is used
+            layers, fm = 2, modes
+            if d > 1:
+                layers, fm = (3, modes) if s["tid"] % 2 == 0 else (2, [modes, modes])
+            net = tp.models.FNO(X, Y, fourier_layers=layers, hidden_channels=3, fourier_modes=fm,
                                 skip_connections=s["skip"], linear_connections=s["lin"])
             call = lambda u: net(tp.spaces.Points(u, X)).as_tensor
         net.eval()
